@@ -103,6 +103,8 @@ func (l *LeafDesc) Build() any {
 		return PtrPair{&ptrPairTarget, nil} // an array of pointers (one live and shared, one nil)
 	case "struct-empty":
 		return struct{}{}
+	case "cmp-op":
+		return stackage.ComparisonOperator(l.I) // an operator constant is a value like any other when it is an element
 	case "str":
 		return l.S
 	case "int":
